@@ -36,4 +36,17 @@ C10_DiscoveryDupRefused == (J /\ Dsc) => T.dupRefused
 \* is closed the other peers are served again, and the server can still be stopped
 Stk == T.op = "stuck"
 C10_StuckPeerClosed == (J /\ Stk /\ T.busy /\ T.bBefore) => (T.answeredB /\ T.stopped)
+\* a server bound to the wildcard address: one remote socket talking to three local addresses of the host has three
+\* connections - each request executed and answered on its own (same message ID towards all three), from the address
+\* contacted; closing one leaves the others alone (Conn.LocalAddr() reports the listener's address by design, and a closed
+\* server-side connection is only dismantled by the next housekeeping run: neither is judged)
+Wld == T.op = "wild"
+WD == T.d
+C10_PerLocalAddress == (J /\ Wld /\ T.usable) =>
+                         /\ T.newconns = Len(WD)
+                         /\ \A k \in 1..Len(WD) : /\ WD[k].answered /\ WD[k].tokok /\ WD[k].echook
+                                                   /\ WD[k].from = WD[k].dst
+                                                   /\ WD[k].conn > 0 /\ WD[k].nth = 1
+                         /\ \A a, b \in 1..Len(WD) : a # b => WD[a].conn # WD[b].conn
+                         /\ \A k \in 2..Len(WD) : ~WD[k].closed /\ WD[k].again /\ WD[k].againNth = 2
 =============================================================================
